@@ -173,6 +173,9 @@ type confStats struct {
 // normalise a JSON-decoded event from TLC into a harness event (numbers, id mapping).
 func tourEvent(ev M, conc map[string][]byte, commits []string, contents map[string][]byte, T *Tables) M {
 	out := cloneEv(ev)
+	if tz, ok := out["tz"]; ok {
+		out["runtz"] = toInt(tz) // the zone offset under which the command is to run (honoured by execStep, kept in replay files)
+	}
 	delete(out, "t0")
 	delete(out, "t1")
 	delete(out, "tz")
@@ -336,6 +339,9 @@ func tourJobs(cx *CheckCtx, name string, obs ObsSpec, maxEdges int) []Job {
 				parentStep := 0
 				okPrefix := true
 				for _, pn := range u.prefix {
+					if tz, ok := pn.ev["tz"]; ok {
+						r.TZ = toInt(tz)
+					}
 					ev := tourEvent(pn.ev, conc, commits, contents, c.T)
 					resolveIds(c.T, st, ev)
 					annotate(c.T, ev)
@@ -365,6 +371,9 @@ func tourJobs(cx *CheckCtx, name string, obs ObsSpec, maxEdges int) []Job {
 }
 
 func tourWalk(c *Chunk, r *Runner, n *tourNode, line int, st M, parentStep int, commits []string, contents map[string][]byte, cs *confStats) {
+	if tz, ok := n.ev["tz"]; ok {
+		r.TZ = toInt(tz) // the model's event says under which zone offset the command runs
+	}
 	ev := tourEvent(n.ev, c.Tour.Conc, commits, contents, c.T)
 	resolveIds(c.T, st, ev)
 	annotate(c.T, ev)
